@@ -51,6 +51,7 @@ TEnd ==
   /\ res = T.result
   /\ (res \notin {"run", "ok"}) => ((strm = "open") <=> T.open_after)
   /\ Props
+  /\ ("C11" \in PropGroups /\ "second" \in DOMAIN T) => SecondOK(T.second)
   /\ l' = l + 1 /\ UNCHANGED <<vars, tid>>
 
 TNext == TStep \/ TEnd
